@@ -21,7 +21,8 @@ Calls (field `call`):
                  `LOBPCG` rule returns (`lobpcgRule`), whether they are the extreme selection, violated clauses.
 * `structural` — `op, k, which` ↦ CODE: values and vectors of the structural rule in exact ℚ[i]
                  arithmetic; SPEC: exact checks against `den` (eigenpairs, orthonormality,
-                 independence, extreme magnitudes); violated clauses.
+                 independence, extreme magnitudes); `in_domain` (triangular DATA for a Triangular operator: the
+                 hypothesis `triangularData` of `C10_triangular`); no defect clause is left for these rules.
 * `power`      — `n, cplx, A, v0, tol, max_iter` (IEEE bit patterns) ↦ the state machine on doubles:
                  step count, value, vector, the error seen by every evaluation of the test and the value
                  `eig` of every state (compared step by step with the products the real run formed).
@@ -170,12 +171,14 @@ def handleStructural (j : Json) (pre : String) : E String := do
       (match w with
        | .LM => out.vals.all fun x => restVals.all fun y => GRat.normSq y ≤ GRat.normSq x
        | .SM => out.vals.all fun x => restVals.all fun y => GRat.normSq x ≤ GRat.normSq y)
-    -- no defect clause is left; `triangular-data` = the input is outside the rule's domain
+    -- no defect clause is left for the structural rules (`clauses` is always empty).  `in_domain`: the hypothesis
+    -- `triangularData` of `C10_triangular` (a Triangular operator holds upper or lower triangular DATA) — an input
+    -- outside it is a fault of the generator, not a finding: the harness reports it as a mismatch
     let isTri := match A.core with | .tri .. => true | _ => false
     let upper := (List.range n).all fun r => (List.range r).all fun c => D r c == 0
     let lower := (List.range n).all fun c => (List.range c).all fun r => D r c == 0
-    let clauses : List String := if isTri && !(upper || lower) then ["not-triangular-data"] else []
-    pure ("{" ++ hdr ++ s!",\"code\":\{\"vals\":{showZs out.vals},\"vecs\":{showCols out.vecs}},\"spec\":\{\"pairs_ok\":{pairsOk},\"orth_ok\":{orthOk},\"indep_ok\":{indepOk},\"extreme_ok\":{extOk}},\"clauses\":{showStrs clauses}" ++ "}")
+    let inDomain : Bool := !isTri || upper || lower
+    pure ("{" ++ hdr ++ s!",\"code\":\{\"vals\":{showZs out.vals},\"vecs\":{showCols out.vecs}},\"spec\":\{\"pairs_ok\":{pairsOk},\"orth_ok\":{orthOk},\"indep_ok\":{indepOk},\"extreme_ok\":{extOk}},\"in_domain\":{inDomain},\"clauses\":[]" ++ "}")
 
 /-! ## power iteration on doubles -/
 
